@@ -29,7 +29,7 @@ FLOORS = {'quick': {'operations_after_which_nobody_looked': 1140, 'histories_con
                     'probe_oob': 5000, 'probe_oob_taken_id': 500, 'middle_removals': 384, 'big_environments': 4, 'big_ops': 1000, 'edge_placements': 200,
                     'accessor_comparisons': 5000, 'rejected_agent_without_position': 5000, 'contract:Environment.registry': 50000, 'contract:SpaceWorld.containment': 50000,
                     'reach:Core.Environment.add_agent': 5000, 'reach:Environments.SpaceWorld.add_agent': 5000},
-          'thorough': {'probe_oob': 300000, 'probe_dup_impostor': 150000, 'accessor_comparisons': 369098}}
+          'thorough': {'probe_oob': 300000, 'probe_dup_impostor': 150000, 'accessor_comparisons': 365491}}
 EXHAUSTIVE = {}
 
 _K = None
